@@ -25,6 +25,26 @@ def find_crossed(f, handler):
     return c
 
 
+def sign_tests(f, handler, scope):
+    """[(if node, callee)] - the sign-change test of the detection loop, found by shape rather than by name: an `if` whose
+    condition is a call with three arguments (two floats and a direction) of a nested helper fn or of a local closure.
+    callee = {'def', 'params', 'body', 'sp'} for either form."""
+    out = []
+    for i_ in tast.find(scope, lambda z: z.get("k") == "If" and z["cond"].get("k") == "Call" and len(z["cond"].get("args", [])) == 3 and z["cond"].get("ty") == "bool"):
+        c = i_["cond"]
+        if not any("Direction" in (a.get("ty") or "") for a in c["args"]):
+            continue
+        d = c.get("def") or ""
+        if d and d.startswith(handler["def"] + "::") and d in f.bodies:
+            out.append((i_, f.bodies[d]))
+        elif not d and c.get("res") == "local":
+            lets = tast.find(handler["body"], lambda z: z.get("k") == "Let" and z["pat"].get("id") == c.get("id") and z.get("init") is not None and z["init"].get("k") == "Closure")
+            if len(lets) == 1:
+                cl = lets[0]["init"]
+                out.append((i_, dict(cl, **{"def": cl.get("def"), "params": cl.get("params"), "body": cl.get("body"), "sp": cl.get("sp")})))
+    return out
+
+
 class HHooks(Hooks):
     def call(self, sx, node, d):
         if d == INTERP and len(node["args"]) == 2:
@@ -167,7 +187,7 @@ class PairMon(mon.Monitor):
                 return (None,)
             if self.same_index and st[1] != w[1]:
                 self.violate("%s:%s:index" % (self.rule, self.fn), "%s[%s] paired with %s[%s]" % (self.first, st[1], self.second, w[1]), n, self.cur_trail)
-            self._pair_nodes.add(id(n))
+            self._pair_nodes.add((id(n), self.runner.site()))
             return (None,)
         if kind in ("return", "fn_end", "break", "continue", "latch", "loop_head", "for_head") and st is not None:
             self.violate("%s:%s:unpaired-first" % (self.rule, self.fn), "a path leaves with %s pushed but not %s" % (self.first, self.second), n, self.cur_trail)
@@ -570,6 +590,15 @@ def _eval_fin(e, env, body, xid, xoldid, depth=0):
         for st in e.get("stmts", []):
             if st.get("k") == "Let" and st["pat"].get("k") == "PBind" and st.get("init") is not None:
                 env[st["pat"]["id"]] = _eval_fin(st["init"], env, body, xid, xoldid, depth + 1)
+            elif st.get("k") == "Let" and st["pat"].get("k") == "PTuple" and st.get("init") is not None:
+                v = _eval_fin(st["init"], env, body, xid, xoldid, depth + 1)
+                if not isinstance(v, tuple) or len(v) != len(st["pat"]["pats"]) or v[:1] == ("t",):
+                    raise _Unknown("tuple pattern")
+                for q, x in zip(st["pat"]["pats"], v):
+                    if q.get("k") == "PBind":
+                        env[q["id"]] = x
+                    elif q.get("k") != "PWild":
+                        raise _Unknown("nested pattern")
             elif st.get("k") in ("ExprStmt", "Semi"):
                 continue
             else:
@@ -587,6 +616,15 @@ def _eval_fin(e, env, body, xid, xoldid, depth=0):
         raise _Unknown("unary")
     if k == "Lit" and e.get("lk") == "Bool":
         return bool(e["v"])
+    if k == "Tuple":
+        return tuple(_eval_fin(x, env, body, xid, xoldid, depth + 1) for x in e["elems"])
+    if k == "Field" and e["e"].get("k") in ("Path", "Unary"):
+        base = e["e"]
+        while base.get("k") == "Unary" and base.get("op") == "Deref":
+            base = base["e"]
+        if base.get("k") == "Path" and base.get("id") in (env.get("a"), env.get("b")):
+            who = "a" if base["id"] == env["a"] else "b"
+            return ("t", who) if e.get("name") == "0" else ("other", who, e.get("name"))
     if k == "Path":
         if e.get("res") == "local":
             if e["id"] in env:
@@ -648,6 +686,18 @@ def _eval_fin(e, env, body, xid, xoldid, depth=0):
     if k == "MethodCall":
         nm = e.get("name")
         if nm in ("partial_cmp", "total_cmp", "cmp"):
+            try:
+                lv = _eval_fin(e["recv"], env, body, xid, xoldid, depth + 1)
+                rv = _eval_fin(e["args"][0], env, body, xid, xoldid, depth + 1)
+            except _Unknown:
+                lv = rv = None
+            if isinstance(lv, tuple) and isinstance(rv, tuple) and lv[:1] == ("t",) and rv[:1] == ("t",):
+                if lv[1] == rv[1]:
+                    return "E"
+                return env["rel"] if lv[1] == "a" else _flip(env["rel"])
+            if isinstance(lv, tuple) and isinstance(rv, tuple) and lv[:1] == ("other",) and rv[:1] == ("other",):
+                return "ANY"
+
             def side(n):
                 f = tast.find(n, lambda z: z.get("k") == "Field")
                 p_ = tast.find(n, lambda z: z.get("k") == "Path" and z.get("id") in (env["a"], env["b"]))
@@ -948,36 +998,55 @@ def r_evt_loop_one(rep, hc):
     else:
         rep.ok("R-EVT-LOOP", key, "every event function 0..n_events is examined on every non-initial callback")
     # the crossed-if
-    cifs = tast.find(df["body"], lambda z: z.get("k") == "If" and z["cond"].get("k") == "Call" and (z["cond"].get("def") or "").endswith("::crossed"))
+    cifs = [i_ for i_, _c in sign_tests(hc.f, hc.body, df["body"])]
     if len(cifs) != 1:
         rep.inconc("R-EVT-ONE", "R-EVT-ONE:%s:anchor" % hc.fn, "expected one `if crossed(..)` in the detection loop, found %d" % len(cifs))
         return
     cif = cifs[0]
-    a = cif["cond"]["args"]
-    probs = []
-    # arguments: (prev_event[i], g_curr_buf[i], &config.direction) through locals
-    def resolves_to(e, field):
-        if e.get("k") == "Path" and e.get("res") == "local":
-            lets = tast.find(df["body"], lambda z: z.get("k") == "Let" and z["pat"].get("id") == e["id"])
-            if lets:
-                e = lets[0].get("init") or {}
-        return tast.contains(e, lambda z: hc.field_is(z, field)) and tast.contains(e, lambda z: z.get("k") == "Path" and z.get("id") == df["pat"].get("id"))
-    if not resolves_to(a[0], "prev_event"):
-        probs.append("left value is not prev_event[i]")
-    if not resolves_to(a[1], "g_curr_buf"):
-        probs.append("right value is not the current event value g_curr_buf[i]")
-    if not (tast.contains(a[2], lambda z: z.get("k") == "Field" and z.get("name") == "direction")):
-        probs.append("direction argument is not the event's configured direction")
-    if probs:
-        rep.violation("R-EVT-ONE", "R-EVT-ONE:%s:args" % hc.fn, "; ".join(probs), sp(cif))
-    else:
-        rep.ok("R-EVT-ONE", "R-EVT-ONE:%s:args" % hc.fn, "crossed(prev_event[i], g_curr[i], direction_i)")
+    r_evt_args(rep, hc, cif)
     m = OneMon(hc, df, cif, did)
     mon.Runner(m).run_fn(hc.body)
     for key2, msg, node, trail in m.violations:
         rep.violation("R-EVT-ONE", key2, msg, sp(node))
     if not m.violations:
         rep.ok("R-EVT-ONE", "R-EVT-ONE:%s" % hc.fn, "exactly one record per detected crossing, none otherwise, on every path through the root finder")
+
+
+def r_evt_args(rep, hc, cif=None):
+    """the sign-change test is applied to (previous value, current value) of the SAME event function in the order of
+    integration - symbolic values of the call's arguments: arg0 is the stored prev_event element, arg1 the freshly evaluated
+    event value at (x, y), arg2 the event's own direction. A swap that depends on the direction of integration shows up as a
+    join (phi) of the two values and is rejected: the direction filter is defined in the order of integration."""
+    key = "R-EVT-ONE:%s:args" % hc.fn
+    conds = [id(i_["cond"]) for i_, _c in sign_tests(hc.f, hc.body, hc.body["body"])] if cif is None else [id(cif["cond"])]
+    evs = [ev for ev in hc.sx.trace if ev["kind"] in ("call", "inline") and id(ev["node"]) in conds]
+    if len(evs) != 1 or len(evs[0].get("args", [])) != 3:
+        rep.inconc("R-EVT-ONE", key, "call of the sign-change test not found in the symbolic trace (%d)" % len(evs))
+        return
+    a0, a1, a2 = evs[0]["args"]
+    probs = []
+
+    def is_prev(v):
+        at = v.single_atom() if isinstance(v, Poly) else None
+        return bool(at) and at.split("@")[0].endswith("prev_event")
+
+    def is_cur(v):
+        at = v.single_atom() if isinstance(v, Poly) else None
+        d = DEFS.get(at) if at else None
+        if not d or d[0] != "events":
+            return False
+        t = d[1][0]
+        return isinstance(t, Poly) and t == Poly.atom(hc.pname[2])   # evaluated at the step end x
+    if not is_prev(a0):
+        probs.append("the first value is %r, not the stored previous value prev_event[i]" % (a0,))
+    if not is_cur(a1):
+        probs.append("the second value is %r, not the event function evaluated at the step end (x, y)" % (a1,))
+    if "direction" not in repr(a2):
+        probs.append("direction argument is not the event's configured direction")
+    if probs:
+        rep.violation("R-EVT-ONE", key, "; ".join(probs)[:500], sp(evs[0]["node"]))
+    else:
+        rep.ok("R-EVT-ONE", key, "crossed(prev_event[i], g(x, y)[i], direction_i): values in the order of integration")
 
 
 # ------------------------------------------------------------------------------------- FIN: crossed truth table
@@ -1063,7 +1132,10 @@ class FinEval:
 
 def r_crossed_table(rep, hc):
     f = hc.f
-    cs = [b for b in find_crossed(f, hc.body) if b["def"].endswith("::crossed")]
+    cs = []
+    for _i, c_ in sign_tests(f, hc.body, hc.body["body"]):
+        if not any(c_ is x for x in cs):
+            cs.append(c_)
     key0 = "R-CROSSED-TABLE:%s" % hc.fn
     if len(cs) != 1:
         rep.inconc("R-CROSSED-TABLE", key0 + ":anchor", "`crossed` helper not found")
@@ -1276,7 +1348,7 @@ class Mode2Mon(mon.Monitor):
                 and tast.contains(n["cond"], lambda z: z.get("k") == "Binary" and z["op"] in ("Le", "Lt")):
             pass
         if kind == "node" and n.get("k") == "MethodCall" and n.get("name") == "push" and hc.field_is(n["recv"], "t"):
-            a = n["args"][0]
+            a = self.runner.resolve(n["args"][0])
             if a.get("k") == "Unary" and a["op"] == "Deref" and a["e"].get("k") == "Path" and a["e"].get("id") == hc.pid[2]:
                 return ((r, True, g),)
         if kind == "else" and n.get("k") == "If" and self.is_dup_guard(n):
